@@ -3,6 +3,14 @@
 import json, os
 V = os.path.dirname(os.path.abspath(__file__))
 CHECKS = {
+ "C11": dict(
+  text="Randomised search (rapid) over histories of 3-10 events on one target directory, executed with the swagger binary built from the tree: generate {server, client, model, support, operation} with option subsets (tag layout, --regenerate-configureapi, --exclude-*, --skip-*, flatten mode, strict responders), the spec evolving between runs (operations, parameters, responses, properties dropped or added; every evolution followed by a regeneration), the user appending to configure_<app>.go and adding / editing own files inside generated package directories. Oracle after every run: user files keep their bytes, an existing configure file is untouched unless --regenerate-configureapi, and every file the same command writes into an empty directory is present with identical bytes. One listed known finding (facade imports resolved against stale packages).",
+  note="A difference only counts when none of four fresh generations reproduces the bytes found in the target (generator output that is not repeatable is C07's subject); a run that exits non-zero is only required to leave user files alone.",
+  tech="property-based testing (rapid): model-based testing of generated-file state over event histories, differential against fresh generation"),
+ "C09": dict(
+  text="Randomised search (rapid) over pairs (spec with neutral text in every free-text position, same spec with hostile text in all sites of one position kind plus a sample of the others). Hostile text = a Go declaration / field / statement named Injected<site> behind a comment or literal terminator (line breaks of every kind incl. mixed CRLF/LF, '*/', back-quote, double quote, struct-tag break, trailing backslash, template / printf syntax, control characters). Both specs are generated (server+client, cli, model; optional --struct-tags=description,example) with the binary built from the tree. Oracle: the hostile generation fails with an error, or both trees have the same files and each file the same go/parser AST once comments are dropped and string/char literal values erased; in ~15% of cases both trees are compiled and the hostile one must build when the neutral one does. Four leaks found and repaired (fix: commits), replayed from the corpus.",
+  note="Names (definitions, properties, enum values...) are not free text and stay neutral; URL / e-mail fields constrained by the Swagger schema stay neutral; a leak whose payload does not parse makes the generator fail, which the property allows, so only parseable leaks are observable.",
+  tech="property-based testing (rapid): metamorphic relation (neutral vs hostile text) over generated programs, compared as ASTs"),
  "C08": dict(
   text="Randomised search (rapid) over specs with planted groups of mangling-equivalent names (definitions, operation ids, id-less paths, synthesised vs explicit ids, tags, reserved package names, parameter names, inline-type names) next to plain control operations; server+client are generated with the binary built from the tree and compiled with the reflection harness. Oracle: generator error, or one model type per definition, one handler field and client method per operation, and every method+path reaches the handler carrying its own marker. Seven listed known findings (silent overwrites and merged Go names).",
   note="Operation identity is observed behaviourally (unique default of a marker parameter), never by re-implementing the name mangling.",
